@@ -36,35 +36,37 @@ Theorem c40_refuted_empty :
 Proof. exact same_outcome_refuted_empty. Qed.
 Print Assumptions c40_refuted_empty.
 
-(* finding 2: a listed location that does not hold the volume acknowledges the
-   replicated write without storing it *)
-Theorem c40_refuted_lost_volume :
-  success (upload_status witness_lost_volume) = true /\
-  map so_state (views_after_upload witness_lost_volume) = [0; 3] /\
-  upload_consistent (upload_status witness_lost_volume) (views_after_upload witness_lost_volume) = false.
-Proof. exact same_outcome_refuted_lost_volume. Qed.
-Print Assumptions c40_refuted_lost_volume.
-
-(* The strongest true statement: outside the three decidable triggers, for every
+(* The strongest true statement: outside the two decidable triggers, for every
    request (POST or PUT, any name, mime, pairs, ts, ttl, cm, gzip-encoded or not),
-   every oracle answer, any number of replicas and any fault, an acknowledged upload
-   leaves every replica with the primary's decoded content, name, mime, pairs,
-   last-modified and TTL, and an acknowledged delete leaves the file deleted on
-   every replica. *)
+   every oracle answer, any number of replicas and ANY fault (a replica answering 500,
+   unreachable, or not holding the volume), an acknowledged upload leaves every
+   listed replica with the primary's decoded content, name, mime, pairs,
+   last-modified and TTL, and an acknowledged delete leaves the file served by no
+   listed replica. *)
 Theorem c40_same_outcome_partial : forall u,
-  trig_lost_volume u = false -> trig_empty u = false -> trig_mime u = false ->
+  trig_empty u = false -> trig_mime u = false ->
   upload_consistent (upload_status u) (views_after_upload u) = true /\
   delete_consistent (delete_status u) (views_after_delete u) = true.
 Proof. exact same_outcome_partial. Qed.
 Print Assumptions c40_same_outcome_partial.
 
-(* (full) a replica that answers with an error or is unreachable makes the upload and
-   the delete fail towards the client *)
+(* (full) a replica that answers with an error, is unreachable, or is a volume server
+   that does not hold the volume (the repaired ReplicatedWrite) makes the upload fail
+   towards the client; the first two also make the delete fail *)
 Theorem c40_failure_reported : forall u,
-  u_fault u = 1 \/ u_fault u = 2 ->
-  success (upload_status u) = false /\ success (delete_status u) = false.
+  (u_fault u = 1 \/ u_fault u = 2 \/ u_fault u = 3 -> success (upload_status u) = false) /\
+  (u_fault u = 1 \/ u_fault u = 2 -> success (delete_status u) = false).
 Proof. exact failure_reported. Qed.
 Print Assumptions c40_failure_reported.
+
+(* regression witness of the repaired defect (formerly finding 2): the listed location
+   without the volume holds nothing and the upload is answered with 500 *)
+Theorem c40_lost_volume_reported :
+  map so_state (views_after_upload witness_lost_volume) = [0; 3] /\
+  upload_status witness_lost_volume = 500 /\
+  upload_consistent (upload_status witness_lost_volume) (views_after_upload witness_lost_volume) = true.
+Proof. exact lost_volume_reported. Qed.
+Print Assumptions c40_lost_volume_reported.
 
 (* (full) the pieces the partial theorem rests on, each for every request and oracle:
    the file name survives the replication request (path.Base is idempotent) ... *)
